@@ -465,7 +465,10 @@ func runCheck(id, tier string) int {
 		"inconclusive":        agg.Inconclusive + int64(len(failed)),
 		"known_findings_hit":  kfHit,
 		"workers_restarted":   restarts,
-		"exhaustive":          exhausted && len(failed) == 0,
+		// the workloads mix complete enumerations below a size bound with seeded samples above it,
+		// so the run as a whole never claims to have enumerated a finite space completely
+		"exhaustive":            false,
+		"case_list_completed":   exhausted && len(failed) == 0,
 		"counters":            agg.Counters,
 		"observed":            setsOut,
 		"shards":              len(jobs),
